@@ -25,6 +25,7 @@ EXPLANATION = (
     "through RecordDescriptor.__init__. NOT decided: behaviour of CPython's re/str.format beyond the model, the content "
     "of error messages, resource use for very long names."
     " Also decided (rules added after the fifth blind round): (R6.4) every return of fieldtype() has passed a whitelist test of the requested name on every path and the function does not call itself (one list level); the WHITELIST_TREE walk is decided by facts and reachability; (R6.5) the JSON decoder's descriptor branch returns only validated constructions."
+    " Rules added after the sixth blind round: (R6.7) declared field names are pairwise distinct (known finding F06b); (R6.8) parse_def runs only when fields is None."
 )
 RULE_SUMMARY = (
     "rule instances are enumerated from the source (regex uses, return statements, template slots, dangerous call sites);"
